@@ -132,3 +132,158 @@ Example C15_ellen_erase_model_nonvacuous :
   existsb (fun e : hev SetSpec => match e with HInv _ (SErase _) => true | _ => false end) (EllenDelInv.upd_hist (Ellen.prefill_keys [5]) (Conc.trace c)) = true /\
   lincheck SetSpec (EllenDelInv.upd_hist (Ellen.prefill_keys [5]) (Conc.trace c)) = true.
 Proof. vm_compute. repeat split; reflexivity. Qed.
+
+(** * FULL client history (reads and failed operations included) and the out-of-fuel restriction narrowed
+    (Proofs/EllenFull{Inv,Steps,Cas,Ops,Prog,Thm}.v: the development above re-done with a stronger invariant)
+
+    [EllenFullInv.full_hist keys tr]: every invocation and every response of the trace — contains -> true / false,
+    insert -> false (key present) and erase -> false (key absent) included.
+
+    Linearization points.  Successful insert / erase: as above (child CAS of help_insert / of help_marked).  A search that
+    returns the leaf l read the pointer to l from its parent p (protect_child_node: child loads, then the re-read of p's
+    update word, which must be unchanged and was checked not to be DFlag / Mark).  HINDSIGHT lemma of this model
+    ([EllenFullSteps.D_ld_child_s], fact [FSn]): at the instant of that child load, p is either marked or on the search path
+    of k in the CURRENT tree (p was on the search path of k once, [dever]; a node that was on the search path and is not
+    spliced out still is; a spliced-out node is marked); marks are permanent, so the later re-read of an unmarked update
+    word shows that p was unmarked at the load ([D_ld_upd_seen], fact [FSeen]); hence l was THE leaf at the end of the search
+    path of k at that instant and "k is in the abstract set iff l carries k" ([path_leaf_mem]).  libcds restarts the search
+    (also in contains / find) when the update word of p is DFlag / Mark or changed during protect_child_node, so no search
+    ever returns a leaf read from a marked parent: no stale answer is possible.  The linearization point of contains,
+    insert -> false, erase -> false is the child load that yielded the returned leaf; it is inserted into the LP-annotated
+    trace IN HINDSIGHT when the response is emitted ([EllenFullInv.hind_insert], [EllenFullOps.Sm_emit_res_read]).
+
+    Out of fuel.  The theorems above say nothing once any thread has emitted "outoffuel".  Here a thread that runs out of
+    the model's loop fuel is treated as STOPPED: everything holds at every reachable configuration unless some thread took a
+    further step AFTER its "outoffuel" event ([EllenFullInv.bad]; such a continuation is not a client program: the
+    operation never returned, the next invocation of the thread makes the client history ill-formed, and the model's
+    continuation of op_erase would reuse a serial number).  In particular the invariants and the linearizability hold in
+    the presence of operations that never return (threads stopped in the middle of insert / erase, holding flags). *)
+From LV Require Proofs.EllenFullInv Proofs.EllenFullProg Proofs.EllenFullThm.
+
+Theorem C15_ellen_full_history_linearizable :
+  forall (fuel : nat) (keys : list nat) (ths : list (list Ellen.op)) c,
+    EllenLin.init_check2 keys = true -> Forall (Forall EllenDelProg.op_ok) ths -> (List.length ths <= 63)%nat ->
+    Conc.reach (Ellen.init_cfg fuel keys ths) c -> ~ EllenFullInv.bad (Conc.trace c) ->
+    linearizable SetSpec (EllenFullInv.full_hist keys (Conc.trace c)).
+Proof. exact EllenFullThm.ellen_full_linearizable. Qed.
+Print Assumptions C15_ellen_full_history_linearizable.
+
+(** in particular under the hypotheses of the first part (this closes its open item 3) *)
+Theorem C15_ellen_full_history_linearizable_no_outoffuel :
+  forall (fuel : nat) (keys : list nat) (ths : list (list Ellen.op)) c,
+    EllenLin.init_check2 keys = true -> Forall (Forall EllenDelProg.op_ok) ths -> (List.length ths <= 63)%nat ->
+    Conc.reach (Ellen.init_cfg fuel keys ths) c -> ~ EllenDelInv.exhausted (Conc.trace c) ->
+    linearizable SetSpec (EllenFullInv.full_hist keys (Conc.trace c)).
+Proof. exact EllenFullThm.ellen_full_linearizable_no_outoffuel. Qed.
+Print Assumptions C15_ellen_full_history_linearizable_no_outoffuel.
+
+(** the abstract set of the LP-annotated trace of the full history is the set of keys of the leaves reachable from m_Root *)
+Theorem C15_ellen_full_abstraction :
+  forall (fuel : nat) (keys : list nat) (ths : list (list Ellen.op)) c,
+    EllenLin.init_check2 keys = true -> Forall (Forall EllenDelProg.op_ok) ths -> (List.length ths <= 63)%nat ->
+    Conc.reach (Ellen.init_cfg fuel keys ths) c -> ~ EllenFullInv.bad (Conc.trace c) ->
+    exists atr S st, lp_run lp_init atr = Some (S, st) /\ erase atr = EllenFullInv.full_hist keys (Conc.trace c) /\
+      (forall k, zmem k S = true <-> EllenDelBase.mem (Conc.shared c) k).
+Proof. exact EllenFullThm.ellen_full_abstraction. Qed.
+Print Assumptions C15_ellen_full_abstraction.
+
+(** BST invariant and search-path invariants with stopped (out-of-fuel) threads *)
+Theorem C15_ellen_bst_invariant_with_stopped_threads :
+  forall (fuel : nat) (keys : list nat) (ths : list (list Ellen.op)) c,
+    EllenLin.init_check2 keys = true -> Forall (Forall EllenDelProg.op_ok) ths -> (List.length ths <= 63)%nat ->
+    Conc.reach (Ellen.init_cfg fuel keys ths) c -> ~ EllenFullInv.bad (Conc.trace c) ->
+    EllenProofs.T (Conc.shared c) Ellen.root (-1) 1002.
+Proof. exact EllenFullThm.ellen_full_bst. Qed.
+Print Assumptions C15_ellen_bst_invariant_with_stopped_threads.
+
+Theorem C15_ellen_no_duplicate_keys_with_stopped_threads :
+  forall (fuel : nat) (keys : list nat) (ths : list (list Ellen.op)) c (x y : Ellen.ptr),
+    EllenLin.init_check2 keys = true -> Forall (Forall EllenDelProg.op_ok) ths -> (List.length ths <= 63)%nat ->
+    Conc.reach (Ellen.init_cfg fuel keys ths) c -> ~ EllenFullInv.bad (Conc.trace c) ->
+    EllenProofs.insub (Conc.shared c) Ellen.root x -> EllenProofs.insub (Conc.shared c) Ellen.root y ->
+    ~ EllenProofs.internal (Conc.shared c) x -> ~ EllenProofs.internal (Conc.shared c) y ->
+    Ellen.node_key (Conc.shared c) x = Ellen.node_key (Conc.shared c) y -> x = y.
+Proof. exact EllenFullThm.ellen_full_no_duplicate_keys. Qed.
+Print Assumptions C15_ellen_no_duplicate_keys_with_stopped_threads.
+
+(** the whole invariant [DS] (descriptor discipline: flags held, frozen marked nodes, ABA counter, search paths) and the
+    annotated-trace invariant [IL] of the full history *)
+Theorem C15_ellen_full_invariant :
+  forall (fuel : nat) (keys : list nat) (ths : list (list Ellen.op)) c,
+    EllenLin.init_check2 keys = true -> Forall (Forall EllenDelProg.op_ok) ths -> (List.length ths <= 63)%nat ->
+    Conc.reach (Ellen.init_cfg fuel keys ths) c -> ~ EllenFullInv.bad (Conc.trace c) ->
+    exists a, EllenFullInv.DS (Conc.shared c) a /\ EllenFullInv.IL keys (Conc.shared c) a (Conc.trace c).
+Proof. exact EllenFullThm.ellen_full_invariant. Qed.
+Print Assumptions C15_ellen_full_invariant.
+
+Theorem C15_ellen_search_path_invariants_with_stopped_threads :
+  forall (fuel : nat) (keys : list nat) (ths : list (list Ellen.op)) c,
+    EllenLin.init_check2 keys = true -> Forall (Forall EllenDelProg.op_ok) ths -> (List.length ths <= 63)%nat ->
+    Conc.reach (Ellen.init_cfg fuel keys ths) c -> ~ EllenFullInv.bad (Conc.trace c) ->
+    exists (ever : Z -> Ellen.ptr -> Prop) (dead : Ellen.ptr -> Prop),
+      (forall k, ever k Ellen.root) /\
+      (forall k n, ever k n -> EllenProofs.internal (Conc.shared c) n ->
+                   ever k (Ellen.child (Conc.shared c) n (EllenProofs.dirk (Conc.shared c) k n))) /\
+      (forall k n, ever k n -> EllenProofs.internal (Conc.shared c) n -> ~ dead n -> EllenProofs.path (Conc.shared c) k Ellen.root n) /\
+      (forall n, dead n -> snd (Ellen.upd (Conc.shared c) n) = 3%nat /\ ~ EllenProofs.insub (Conc.shared c) Ellen.root n).
+Proof. exact EllenFullThm.ellen_full_descriptor_invariants. Qed.
+Print Assumptions C15_ellen_search_path_invariants_with_stopped_threads.
+
+(** [bad] is weaker than the old restriction: it needs an "outoffuel" event, and is decided by [badb] *)
+Theorem C15_ellen_bad_needs_outoffuel : forall tr, EllenFullInv.bad tr -> EllenDelInv.exhausted tr.
+Proof. exact EllenFullThm.bad_exhausted. Qed.
+Print Assumptions C15_ellen_bad_needs_outoffuel.
+Theorem C15_ellen_badb_sound : forall tr, EllenFullThm.badb tr = false -> ~ EllenFullInv.bad tr.
+Proof. exact EllenFullThm.badb_false. Qed.
+Print Assumptions C15_ellen_badb_sound.
+
+(** the hindsight lemma as a pure fact: the leaf at the end of the search path of k decides the membership of k *)
+Theorem C15_ellen_search_path_leaf_decides_membership :
+  forall (g : Ellen.G) (k : Z) (c : Ellen.ptr),
+    EllenProofs.T g Ellen.root (-1) 1002 -> EllenProofs.path g k Ellen.root c -> ~ EllenProofs.internal g c ->
+    (EllenDelBase.mem g k <-> Ellen.inf_of (Ellen.flags g c) = 0 /\ Ellen.lkey c = k).
+Proof. exact EllenFullInv.path_leaf_mem. Qed.
+Print Assumptions C15_ellen_search_path_leaf_decides_membership.
+
+(** the runs of the step-correspondence check *)
+Theorem C15_ellen_run_case_full_linearizable :
+  forall (cfg : list Z) (ths : list (list (list Z))) (sched : list nat) (fuel : nat),
+    EllenLin.init_check2 (Ellen.prefill_keys cfg) = true -> (List.length ths <= 63)%nat ->
+    EllenFullThm.badb (Conc.trace (EllenFullThm.run_cfg cfg ths sched fuel)) = false ->
+    EllenProofs.T (Conc.shared (EllenFullThm.run_cfg cfg ths sched fuel)) Ellen.root (-1) 1002 /\
+    linearizable SetSpec (EllenFullInv.full_hist (Ellen.prefill_keys cfg) (Conc.trace (EllenFullThm.run_cfg cfg ths sched fuel))).
+Proof. exact EllenFullThm.ellen_run_case_full_linearizable. Qed.
+Print Assumptions C15_ellen_run_case_full_linearizable.
+
+(** non-vacuity 1: a contended run (3 threads, pre-filled {0, 2}) whose full history contains contains -> true,
+    insert -> false and erase -> false; the hypotheses hold and the verified checker accepts the full history *)
+Example C15_ellen_full_history_nonvacuous :
+  let ths := [[[10;2]; [1;1]]; [[6;2]; [1;1]]; [[1;0]; [6;1]; [10;1]]] in
+  let c := EllenFullThm.run_cfg [5] ths [] (30 * 1000) in
+  let h := EllenFullInv.full_hist (Ellen.prefill_keys [5]) (Conc.trace c) in
+  EllenLin.init_check2 (Ellen.prefill_keys [5]) = true /\ EllenFullThm.badb (Conc.trace c) = false /\
+  existsb (fun e : hev SetSpec => match e with HInv _ (SContains _) => true | _ => false end) h = true /\
+  List.length (filter (fun e : hev SetSpec => match e with HRes _ (RBool false) => true | _ => false end) h) = 3%nat /\
+  lincheck SetSpec h = true.
+Proof. vm_compute. repeat split; reflexivity. Qed.
+
+(** non-vacuity 2: a run with loop fuel 4 in which two threads run out of fuel in their last operation (insert 3,
+    erase 3) while the others complete: "outoffuel" occurs ([exhaustedb] = true: the theorems of the first part do not
+    apply), the trace is not [bad], the full history (two operations pending forever) is accepted by the checker *)
+Example C15_ellen_stopped_threads_nonvacuous :
+  let c := fst (Conc.run (6 * 1000) 0 [] (Ellen.init_cfg 4 [0%nat; 2%nat] [[OContains 2; OIns 1]; [OIns 3]; [OErase 0; OErase 3]])) in
+  let h := EllenFullInv.full_hist [0%nat; 2%nat] (Conc.trace c) in
+  EllenLin.init_check2 [0%nat; 2%nat] = true /\
+  EllenFullThm.exhaustedb (Conc.trace c) = true /\ EllenFullThm.badb (Conc.trace c) = false /\
+  existsb (fun e : hev SetSpec => match e with HRes _ _ => true | _ => false end) h = true /\
+  lincheck SetSpec h = true.
+Proof. vm_compute. repeat split; reflexivity. Qed.
+
+(** the restriction [~ bad] is not redundant for the full history: when a thread goes on after "outoffuel" (model fuel 4,
+    thread 1: insert 3 runs out of fuel, then contains 1) the client history has two open invocations of one thread and
+    the checker rejects it *)
+Example C15_ellen_continuing_after_outoffuel_is_not_a_client_history :
+  let c := fst (Conc.run (6 * 1000) 0 [] (Ellen.init_cfg 4 [0%nat; 2%nat] [[OContains 2; OIns 1]; [OIns 3; OContains 1]; [OErase 0; OErase 3]])) in
+  EllenFullThm.badb (Conc.trace c) = true /\
+  lincheck SetSpec (EllenFullInv.full_hist [0%nat; 2%nat] (Conc.trace c)) = false.
+Proof. vm_compute. split; reflexivity. Qed.
